@@ -62,4 +62,35 @@ def closeFileNone (H : HashFn) (ht cht : Nat) (dict : Bytes) (chunks : List Byte
   let hdr ← header H ⟨ht, cht, 0, 0, dd, ents⟩
   some (hdr ++ all.flatten)
 
+/-! ### the whole file for any backend: the compressor is a parameter (`C dict content` = what the backend's `compress` / `end_cchunk`
+produce for one chunk; the identity for the "none" backend) -/
+
+/-- stored bytes of a chunk with content `p`: nothing for an empty chunk (nothing is ever handed to the backend), the content itself
+for compression type 0 -/
+def sto (C : Option Bytes → Bytes → Bytes) (ct : Nat) (d : Option Bytes) (p : Bytes) : Bytes :=
+  if p.length = 0 then [] else if ct = 0 then p else C d p
+
+/-- the index entry `index_finish_chunk` makes (`u` = uncompressed-source flag: a second checksum, of `upl` = the content bytes that
+went through `comp_write`; the dictionary chunk is written by `comp_init` directly, so for it `upl` is empty) -/
+def entryOf (H : HashFn) (cht : Nat) (u : Bool) (st pl upl : Bytes) : Option Chunk :=
+  if pl.length = 0 then (hsize cht).map fun ds => ⟨0, zeros ds, if u then some (zeros ds) else none, 0, 0, 0⟩
+  else
+    match H cht st, (if u then (H cht upl).map some else some none) with
+    | some d, some ud => some ⟨0, d, ud, st.length, pl.length, 0⟩
+    | _, _ => none
+
+/-- every chunk with its stored form: the dictionary is compressed without a dictionary, the data chunks with it (if not empty) -/
+def storedPairs (C : Option Bytes → Bytes → Bytes) (ct : Nat) (dict : Bytes) (chunks : List Bytes) : List (Bytes × Bytes × Bytes) :=
+  (sto C ct none dict, dict, []) :: chunks.map fun p => (sto C ct (if dict.length = 0 then none else some dict) p, p, p)
+
+/-- what `zck_close` writes: the data checksum covers the stored bytes (all zeros with the uncompressed-source flag) -/
+def closeFile (H : HashFn) (C : Option Bytes → Bytes → Bytes) (ht cht ct : Nat) (u : Bool) (dict : Bytes) (chunks : List Bytes) :
+    Option Bytes :=
+  let pairs := storedPairs C ct dict chunks
+  match pairs.mapM (fun x => entryOf H cht u x.1 x.2.1 x.2.2),
+        (if u then (hsize ht).map zeros else H ht (pairs.map (·.1)).flatten) with
+  | some ents, some dd =>
+    (header H ⟨ht, cht, if u then 4 else 0, ct, dd, ents⟩).map fun hdr => hdr ++ (pairs.map (·.1)).flatten
+  | _, _ => none
+
 end Zck.Encode
